@@ -239,7 +239,9 @@ def part_F(run):
                                       z3.Implies(z3.fpLT(xi, z3.FPVal(0.0, srt)), z3.fpLEQ(ci, z3.FPVal(0.0, f8))))
                         mono = z3.Implies(z3.fpLEQ(xi, xj), z3.fpLEQ(ci, cj))
                         notnan = z3.And(z3.Not(z3.fpIsNaN(ci)), z3.Not(z3.fpIsInf(ci)), z3.fpLEQ(z3.fpAbs(ci), qm))
-                    rp = lambda m, sd, qn=qname, dt=dtype: replay_F(m, sd, qn, dt)
+                    rp = lambda m, sd, qn=qname, dt=dtype: replay_F(m, sd, qn, dt, ("near",))
+                    rp_nan = lambda m, sd, qn=qname, dt=dtype: replay_F(m, sd, qn, dt, ("nan",))
+                    rp_mono = lambda m, sd, qn=qname, dt=dtype: replay_F(m, sd, qn, dt, ("monotone",))
                     # (a') bit-precise closeness: the code is within half a grid step (+ 4 ulp of the working dtype:
                     # "a few units of rounding") of the correctly rounded quotient fl(x/scale), when that lies in the grid range
                     D = z3.FPSort(11, 53)
@@ -269,7 +271,7 @@ def part_F(run):
                     nearest = z3.Implies(inrange, z3.fpLEQ(z3.fpAbs(z3.fpSub(z3.RNE(), cd_, yd)), z3.fpAdd(z3.RNE(), z3.fpAbs(z3.fpSub(z3.RNE(), vd_, yd)), slack)))
                     run.add(f"C01/F-code-is-a-nearest-grid-value[{tag}]/path{pi}", hy + vh, nearest, "property", inst, timeout=FT,
                             replay=lambda m, sd, qn=qname, dt=dtype: replay_nearest_point(m, sd, qn, dt))
-                    run.add(f"C01/F-code-on-grid-not-nan[{tag}]/path{pi}", hy, notnan, "property", inst, replay=rp, timeout=FT)
+                    run.add(f"C01/F-code-on-grid-not-nan[{tag}]/path{pi}", hy, notnan, "property", inst, replay=rp_nan, timeout=FT)
                     run.add(f"C01/F-saturates-high[{tag}]/path{pi}", hy, sat_hi, "property", inst, replay=rp, timeout=FT)
                     run.add(f"C01/F-saturates-low[{tag}]/path{pi}", hy, sat_lo, "property", inst, replay=rp, timeout=FT)
                     run.add(f"C01/F-sign-preserved[{tag}]/path{pi}", hy, sign, "property", inst, replay=rp, timeout=FT)
@@ -281,11 +283,11 @@ def part_F(run):
                     c2s = z3.substitute(cj, (yj, y2))
                     if z3.eq(c1s, ci) or z3.eq(c2s, cj):
                         # the code is not a function of fl(x/scale) in this tree: fall back to the monolithic obligation
-                        run.add(f"C01/F-monotone[{tag}]/path{pi}", hy, mono, "property", inst, replay=rp, timeout=FT)
+                        run.add(f"C01/F-monotone[{tag}]/path{pi}", hy, mono, "property", inst, replay=rp_mono, timeout=FT)
                     else:
                         le = (lambda a, b: a <= b) if qname == "qint8" else z3.fpLEQ
                         run.add(f"C01/F-monotone-stage[{tag}]/path{pi}", r.hyps + [z3.Not(z3.fpIsNaN(y1)), z3.Not(z3.fpIsNaN(y2)), z3.fpLEQ(y1, y2)],
-                                le(c1s, c2s), "property", inst, replay=rp, timeout=FT)
+                                le(c1s, c2s), "property", inst, replay=rp_mono, timeout=FT)
                         if qname == "qint8" and light:
                             if "A-IEEE-MONO float32" not in "".join(run.assumptions):
                                 run.assumptions.append("A-IEEE-MONO float32: division by a positive finite divisor is monotone in the dividend; attempted in the thorough tier only")
@@ -318,10 +320,11 @@ def part_F(run):
                     c1, c2 = q.fields["_data"].elem([i]), q2.fields["_data"].elem([i])
                     dq = d.elem([i])
                     hy = r.hyps + pre + [finite(xf(i))]
-                    rp = lambda m, sd, qn=qname, dt=dtype: replay_F(m, sd, qn, dt)
                     small = z3.fpLEQ(z3.fpAbs(xf(i)), half_max)
-                    run.add(f"C01/F-dequantized-finite-moderate[{tag}]/path{pi}", hy + [small], finite(dq), "property", inst, replay=rp, timeout=FT)
-                    run.add(f"C01/F-dequantized-finite-extreme[{tag}]/path{pi}", hy + [z3.Not(small)], finite(dq), "property", inst, replay=rp, timeout=FT)
+                    run.add(f"C01/F-dequantized-finite-moderate[{tag}]/path{pi}", hy + [small], finite(dq), "property", inst, timeout=FT,
+                            replay=lambda m, sd, qn=qname, dt=dtype: replay_F(m, sd, qn, dt, ("finite-moderate",)))
+                    run.add(f"C01/F-dequantized-finite-extreme[{tag}]/path{pi}", hy + [z3.Not(small)], finite(dq), "property", inst, timeout=FT,
+                            replay=lambda m, sd, qn=qname, dt=dtype: replay_F(m, sd, qn, dt, ("finite-extreme",)))
                     # the dequantized value is the product scale * code rounded ONCE to the working dtype (so that it lies on the grid
                     # {scale * v} up to that single rounding): an intermediate narrower type would move it off the grid
                     pd = {"qint8": "int8", "qfloat8_e4m3fn": "float8_e4m3fn", "qfloat8_e5m2": "float8_e5m2"}[qname]
@@ -334,9 +337,10 @@ def part_F(run):
                         continue
                     tiny = {"float16": 2.0**-14, "float32": 2.0**-126, "bfloat16": 2.0**-126}[dtype]
                     normal = z3.Or(z3.fpIsZero(dq), z3.fpGEQ(z3.fpAbs(dq), z3.FPVal(tiny, srt)))
-                    rpi = lambda m, sd, qn=qname, dt=dtype: replay_point(m, sd, qn, dt)
-                    run.add(f"C01/F-idempotent-normal-range[{tag}]/path{pi}", hy + [finite(dq), normal], same, "property", inst, replay=rpi, timeout=FT)
-                    run.add(f"C01/F-idempotent-subnormal-range[{tag}]/path{pi}", hy + [finite(dq), z3.Not(normal)], same, "property", inst, replay=rpi, timeout=FT)
+                    run.add(f"C01/F-idempotent-normal-range[{tag}]/path{pi}", hy + [finite(dq), normal], same, "property", inst, timeout=FT,
+                            replay=lambda m, sd, qn=qname, dt=dtype: replay_point(m, sd, qn, dt, "normal"))
+                    run.add(f"C01/F-idempotent-subnormal-range[{tag}]/path{pi}", hy + [finite(dq), z3.Not(normal)], same, "property", inst, timeout=FT,
+                            replay=lambda m, sd, qn=qname, dt=dtype: replay_point(m, sd, qn, dt, "subnormal"))
 
 
 def build(run):
@@ -426,8 +430,8 @@ def replay_nearest(model, seed, qname, axis, rank):
     return None
 
 
-def replay_F(model, seed, qname, dtype):
-    """Exhaustive native sweep of one scale over all 2^16 values for the 16-bit dtypes (seeded scales)."""
+def replay_F(model, seed, qname, dtype, clauses=("nan", "near", "monotone", "finite-moderate", "finite-extreme", "idempotent")):
+    """Exhaustive native sweep of one scale over all 2^16 values for the 16-bit dtypes (seeded scales); `clauses` selects what is compared."""
     import torch
     from optimum.quanto import qtypes
     from optimum.quanto.tensor.quantizers import SymmetricQuantizer
@@ -446,25 +450,27 @@ def replay_F(model, seed, qname, dtype):
             continue
         q = SymmetricQuantizer.apply(xs, qtypes[qname], None, sc)
         codes = q._data.to(torch.float32)
-        if torch.isnan(codes).any():
+        if "nan" in clauses and torch.isnan(codes).any():
             k = int(torch.isnan(codes).nonzero()[0])
             return {"x": xs[k].item(), "scale": sc.item(), "what": "NaN code", "qtype": qname, "dtype": dtype}
         yq = (xs / sc).to(torch.float64)
         rel, absl = {"qint8": (0.0, 0.5), "qfloat8_e4m3fn": (2.0**-4, 2.0**-10), "qfloat8_e5m2": (2.0**-3, 2.0**-17)}[qname]
         eps = torch.finfo(dt).eps
         far = (yq.abs() <= QMAX[qname]) & ((codes.to(torch.float64) - yq).abs() > (rel + 4 * eps) * yq.abs() + absl)
-        if far.any():
+        if "near" in clauses and far.any():
             k = int(far.nonzero()[0])
             return {"x": xs[k].item(), "scale": sc.item(), "code": codes[k].item(), "quotient": yq[k].item(),
                     "what": "code is further than half a grid step (+4 ulp) from x/scale", "qtype": qname, "dtype": dtype}
-        if (codes[1:] < codes[:-1]).any():
+        if "monotone" in clauses and (codes[1:] < codes[:-1]).any():
             k = int((codes[1:] < codes[:-1]).nonzero()[0])
             return {"x": [xs[k].item(), xs[k + 1].item()], "scale": sc.item(), "what": "not monotone", "qtype": qname, "dtype": dtype}
         dq = q.dequantize()
-        if not torch.isfinite(dq).all():
-            k = int((~torch.isfinite(dq)).nonzero()[0])
+        moderate = xs.abs() <= torch.finfo(dt).max / 2
+        badf = ~torch.isfinite(dq) & ((moderate if "finite-moderate" in clauses else torch.zeros_like(moderate)) | (~moderate if "finite-extreme" in clauses else torch.zeros_like(moderate)))
+        if badf.any():
+            k = int(badf.nonzero()[0])
             return {"x": xs[k].item(), "scale": sc.item(), "deq": dq[k].item(), "what": "dequantized value is not finite", "qtype": qname, "dtype": dtype}
-        if dtype != "bfloat16":
+        if "idempotent" in clauses and dtype != "bfloat16" and torch.isfinite(dq).all():
             q2 = SymmetricQuantizer.apply(dq, qtypes[qname], None, sc)
             diff = q2._data.to(torch.float32) != codes
             if diff.any():
@@ -504,7 +510,7 @@ def replay_nearest_point(model, seed, qname, dtype):
                 if (code - y).abs().item() > best.item() + 4 * eps * y.abs().item() + 2.0**-60:
                     return {"x": x.item(), "scale": sc.item(), "quotient": y.item(), "code": code.item(), "closest_grid_value": grid[(grid - y).abs().argmin()].item(),
                             "qtype": qname, "dtype": dtype, "what": "the code is not a nearest grid value of x/scale"}
-    return replay_F(model, seed, qname, dtype)
+    return replay_F(model, seed, qname, dtype, ("near",))
 
 
 def replay_product(model, seed, qname, dtype):
@@ -532,8 +538,9 @@ def replay_product(model, seed, qname, dtype):
     return None
 
 
-def replay_point(model, seed, qname, dtype):
-    """Replay exactly the solver's counter-model (x, scale) for the idempotence clause on the real code."""
+def replay_point(model, seed, qname, dtype, rng="any"):
+    """Replay exactly the solver's counter-model (x, scale) for the idempotence clause on the real code; rng = 'normal' / 'subnormal' /
+    'any' restricts to dequantized values in that range of the dtype (the two ranges are separate obligations)."""
     import torch
     from optimum.quanto import qtypes
     from optimum.quanto.tensor.quantizers import SymmetricQuantizer
@@ -555,6 +562,9 @@ def replay_point(model, seed, qname, dtype):
         q = SymmetricQuantizer.apply(x, qtypes[qname], None, sc)
         d = q.dequantize()
         if not torch.isfinite(d).all():
+            continue
+        is_normal = bool((d == 0).all() or (d.abs() >= torch.finfo(dt).tiny).all())
+        if (rng == "normal" and not is_normal) or (rng == "subnormal" and is_normal):
             continue
         q2 = SymmetricQuantizer.apply(d, qtypes[qname], None, sc)
         a, b = q._data.to(torch.float32), q2._data.to(torch.float32)
